@@ -12,6 +12,7 @@ import json
 import os
 import re
 import subprocess
+import vlib
 
 # ------------------------------------------------------------------ message classes (projection of diagnostics)
 MSG_CLASSES = [
@@ -212,3 +213,69 @@ def oracle_c05(prog, iobj):
                     and (p, lo, hi) not in nf:
                 fails.append(("spurious-not-found", {"range": [p, lo, hi], "message": m}))
     return fails
+
+
+# ---------------------------------------------------------------------------------------------------------
+# model input computed INSIDE Coq from the texts (group bridge: model parser -> coq/model/AstToCore.v through the
+# generated accessor table -> Pipeline.v include resolution), with the harness observer coreast.rs (real parse
+# tree through the real typed accessors) as a required-equal cross-check on every workspace.
+BRIDGE_TRANSLATORS = ["t_tokens", "t_lextables", "t_unicode", "t_lexer", "t_grammar", "t_ast"]
+_bridge = {}
+
+
+def bridge_exe(fails):
+    """the extracted bridge unit; a unit that does not build is a broken tie (recorded once), never a silent fallback"""
+    if "exe" not in _bridge:
+        try:
+            _bridge["exe"] = vlib.build_model("bridge")
+        except Exception as ex:              # vlib.BuildError and anything the build step raises
+            _bridge["exe"] = None
+            fails.append({"kind": "bridge-build", "file": "extracted unit `bridge` (coq/model/AstToCore.v, Pipeline.v) does not build",
+                          "error": ("%s: %s" % (type(ex).__name__, ex))[-1500:]})
+    return _bridge["exe"]
+
+
+def _core_view(c):
+    if c.get("panic"):
+        return ("panic",)
+    return (tuple(c.get("files") or ()), c.get("ast"), c.get("noncore"),
+            tuple(sorted((p, tuple(tuple(e) for e in v)) for p, v in (c.get("parse_errors") or {}).items() if v)))
+
+
+def core_checked(bindir, wss, fails, stats=None):
+    """CoreAst objects for the model side: the Coq bridge's, each required to be equal (file list, serialisation
+    character by character, noncore reason, parse errors) to what coreast.rs reads off the real parse tree.
+    A difference is a broken tie with the workspace as its input; the harness object is used when the bridge unit
+    is not available (already recorded as a broken tie by bridge_exe)."""
+    import bridgelib
+    H = core(bindir, wss)
+    exe = bridge_exe(fails)
+    st = stats if stats is not None else {}
+    st.setdefault("workspaces", 0)
+    st.setdefault("identical_to_harness", 0)
+    st.setdefault("core", 0)
+    if not exe:
+        return H
+    try:
+        Bs = bridgelib.core_via_bridge(exe, [{"root": w["root"], "files": dict(w["files"])} for w in wss])
+    except Exception as ex:
+        fails.append({"kind": "bridge-run", "file": "extracted unit `bridge` failed at run time",
+                      "error": ("%s: %s" % (type(ex).__name__, ex))[-1500:]})
+        return H
+    out = []
+    for w, h, b in zip(wss, H, Bs):
+        st["workspaces"] += 1
+        if _core_view(h) == _core_view(b):
+            st["identical_to_harness"] += 1
+            st["core"] += b.get("ast") is not None
+            out.append(b)
+            continue
+        hv, bv = _core_view(h), _core_view(b)
+        what = "panic" if "panic" in (hv[0], bv[0]) else \
+            next((n for n, x, y in zip(("files", "ast", "noncore", "parse_errors"), hv, bv) if x != y), "?")
+        fails.append({"kind": "bridge-vs-coreast", "workspace": w, "differs_in": what,
+                      "file": "coq/model/AstToCore.v (+ model parser, Pipeline.v) vs harness/src/bin/coreast.rs (real tree, real accessors)",
+                      "harness": str(h.get(what) if isinstance(h, dict) else h)[:400],
+                      "bridge": str(b.get(what) if isinstance(b, dict) else b)[:400]})
+        out.append(b if not b.get("panic") else h)
+    return out
